@@ -13,6 +13,9 @@ THEOREMS = [
     'SF.C04.slice_positions_strict', 'SF.C04.int_position', 'SF.C04.mask_positions',
     'SF.C04.key_positions_in_range', 'SF.C04.list_positions',
     'SF.Bridge.inclusive_bridge', 'SF.Bridge.ascending_bridge', 'SF.Bridge.cols_bridge',
+    # the translated generator TypeBlocks._indices_to_contiguous_pairs = the reference loop (over Python ints), and, on the
+    # (block, column) pairs of the block model, = TB.contiguousPairs, which the theorems of C03 / C08 are about
+    'SF.Bridge.contiguous_ref_bridge', 'SF.Bridge.contiguous_bridge',
     # label keys over a flat index: Series.loc / Frame.loc are run against Index.locToIlocP (driver op index.cloc), about which:
     'SF.C02.bijection', 'SF.C02.slice_inclusive', 'SF.C02.slice_inclusive_descending',
 ]
@@ -24,7 +27,7 @@ RULE = ('seeded random frames/series (all dtype kinds, random block layouts, ind
         '(int, slice with out-of-range / negative members, list with repeats, Boolean mask) on one or both axes, '
         'plus a slice grid; non-trivial = key is not the null slice and the container is non-empty; '
         'distinct = distinct canonical case JSON')
-TRUSTED = ['tools/py2lean.py (translator of slice_to_ascending_slice, slice_to_inclusive_slice, _cols_to_slice); cross-checked against the real functions on a grid each run',
+TRUSTED = ['tools/py2lean.py (translator of slice_to_ascending_slice, slice_to_inclusive_slice, _cols_to_slice, _indices_to_contiguous_pairs); cross-checked against the real functions on a grid each run',
            'NumPy basic/fancy indexing of a single array is a parameter of the model (compared, not proved)']
 ASSUMPTIONS = ['NumPy indexing semantics = CPython slice.indices/range semantics (compared on every run)']
 BUDGET = {'quick': 200, 'thorough': 1500}
@@ -33,6 +36,8 @@ BUDGET = {'quick': 200, 'thorough': 1500}
 def nontrivial(c):
     if c['k'] in ('sl', 'cols'):
         return True
+    if c['k'] == 'pairs':
+        return len(c['l']) > 0
     return c.get('n', 1) > 0
 
 
@@ -58,6 +63,12 @@ def cases(ctx):
         if rng.random() < 0.2:
             rng.shuffle(l)
         yield {'k': 'cols', 'l': l}
+    # (block, column) pairs for the translated generator _indices_to_contiguous_pairs (own stream: the cases above and below
+    # are the ones they were before this kind existed)
+    prng = ctx.rng('pairs')
+    yield {'k': 'pairs', 'l': []}
+    for _ in range(400 if quick else 6000):
+        yield {'k': 'pairs', 'l': rand_pairs(prng)}
     # containers
     for i in range(700 if quick else 12000):
         spec = gen.rand_frame_spec(rng, 5, 5, dtypes=gen.DTYPES_ALL if rng.random() < 0.4 else gen.DTYPES_BASIC,
@@ -88,6 +99,38 @@ def cases(ctx):
     yield from cases_chain(ctx, ctx.rng('chain'))
 
 
+def rand_pairs(rng):
+    """a list of (block, column) pairs made of runs: ascending / descending by one (also down to and through 0), repeats of
+    one pair, jumps, block changes with the column continuing, single pairs; sometimes shuffled or with a negative member"""
+    out = []
+    block = rng.randint(0, 3)
+    for _ in range(rng.randint(0, 5)):
+        kind = rng.choice(['asc', 'asc', 'desc', 'desc', 'repeat', 'single', 'zigzag'])
+        ln = rng.randint(1, 4)
+        start = rng.randint(0, 6)
+        if out and rng.random() < 0.3:
+            # continue from where the previous run stopped (the run goes on, or turns round, or only the block changes)
+            start = out[-1][1] + rng.choice([-1, 0, 1])
+        if kind == 'asc':
+            cols = list(range(start, start + ln))
+        elif kind == 'desc':
+            cols = list(range(start, start - ln, -1))
+        elif kind == 'repeat':
+            cols = [start] * ln
+        elif kind == 'single':
+            cols = [start]
+        else:
+            cols = [start + (i % 2) for i in range(ln)]
+        if rng.random() < 0.85:
+            cols = [c for c in cols if c >= 0] or [0]
+        out += [[block, c] for c in cols]
+        if rng.random() < 0.5:
+            block = rng.randint(0, 3) if rng.random() < 0.5 else block + 1
+    if rng.random() < 0.1:
+        rng.shuffle(out)
+    return out
+
+
 def model_lines(c):
     return model_lines_(c)
 
@@ -105,6 +148,8 @@ def model_lines_(c):
     if c['k'] == 'cols':
         l = '(' + ' '.join(str(x) for x in c['l']) + ')'
         return [f'slice.cols {l}', f'gen.cols {l}']
+    if c['k'] == 'pairs':
+        return ['gen.contiguous (' + ' '.join(f'({b} {col})' for b, col in c['l']) + ')']
     if c['k'] == 'lab':
         if c['sub'] == 'lmodel':
             return [lmodel_line(c)]
@@ -160,6 +205,22 @@ def evaluate(ctx, c, outs):
             r = 'err lookup'
         if model_on and (outs[0] != r or outs[1] != r):
             fails.append(Failure('corr', f'_cols_to_slice {c["l"]}: model {outs[0]} gen {outs[1]} real {r}', c))
+        return fails
+    if c['k'] == 'pairs':
+        from static_frame.core.type_blocks import TypeBlocks
+        ctx.count('pairs_cases')
+        ctx.count(f'pairs_len_{min(len(c["l"]), 8)}')
+        f = lambda v: 'N' if v is None else str(int(v))
+        try:
+            got = list(TypeBlocks._indices_to_contiguous_pairs([tuple(p) for p in c['l']]))
+            r = 'ok (' + ' '.join(f'({b} (sl {f(s.start)} {f(s.stop)} {f(s.step)}))' for b, s in got) + ')'
+            ctx.count(f'pairs_out_{min(len(got), 6)}')
+            if any(s.step == -1 for _, s in got):
+                ctx.count('pairs_descending_run')
+        except IndexError:
+            r = 'err lookup'
+        if model_on and outs[0] != r:
+            fails.append(Failure('corr', f'translated _indices_to_contiguous_pairs differs from the real function on {c["l"]}: {outs[0]} vs {r}', c))
         return fails
     if c['k'] == 'lab':
         if c['sub'] == 'lmodel':
